@@ -243,7 +243,11 @@ def build_solver(job):
     kind = job["kind"]
     GN, GD = job["gamma"]
     gamma = GN / GD
+    if job.get("gamma_as_int") and GN % GD == 0:
+        gamma = GN // GD          # the documented domain [0, 1] includes the Python ints 0 and 1
     eps = job["eps"][0] / 2 ** job["eps"][1]
+    if job.get("eps_as_int") and job["eps"][1] == 0:
+        eps = int(job["eps"][0])
     problem = T.make_problem(mdp)
     kw = dict(gamma=gamma, epsilon=eps, max_batch_size=job.get("mbs", 1024), verbose=0)
     if kind in ("VI", "SAVI", "PI"):
